@@ -536,19 +536,27 @@ Definition ids_consistent_text (t : str) : string :=
 Definition id_of_str (s : str) : option nat :=
   let '(v, cnt, _, rest) := take_digits s 0%Z O O in
   match cnt, rest with Datatypes.S _, [] => Some (Z.to_nat v) | _, _ => None end.
-Definition first_id_of_text (t : str) (dflt : nat) : nat :=
+(* ids are handed out to the contact authors first, then to the regular authors; a category writes its id
+   column only if one of ITS authors has a role.  [ncontact] = number of corresponding authors of the case. *)
+Definition ids_of (col : list str) : list nat :=
+  flat_map (fun s => match id_of_str s with Some n => [n] | None => [] end) col.
+Definition first_id_of_text (t : str) (dflt ncontact : nat) : nat :=
   match parse t with
   | Some [b] =>
-      let aids := column_values (S "audit_contact_author.id") (snd b) ++ column_values (S "audit_author.id") (snd b) in
-      match flat_map (fun s => match id_of_str s with Some n => [n] | None => [] end) aids with
-      | [] => dflt
+      match ids_of (column_values (S "audit_contact_author.id") (snd b)) with
       | n :: r => fold_left Nat.min r n
+      | [] =>
+          match ids_of (column_values (S "audit_author.id") (snd b)) with
+          | n :: r => fold_left Nat.min r n - ncontact
+          | [] => dflt
+          end
       end
   | _ => dflt
   end.
 
 Definition check_builder (R : rules) (core pd : schema) (version : list N) (spallation : list str) (b : bcase) : string :=
-  let first := match bc_out b with OText t => first_id_of_text t (bc_first_id b) | _ => bc_first_id b end in
+  let ncontact := List.length (filter up_corresponding (all_authors (bc_calls b))) in
+  let first := match bc_out b with OText t => first_id_of_text t (bc_first_id b) ncontact | _ => bc_first_id b end in
   let c := build core pd version spallation (mkbcase (bc_name b) (bc_comment b) (bc_calls b) first (bc_out b)) in
   match (match bc_out b with OText t => ids_consistent_text t | _ => "" end) with
   | "" => check_case R core c
